@@ -141,6 +141,19 @@ pub fn gen_c19(seed: u64, force_pop: Option<&'static str>) -> Case {
             ops.push(Op::Gap(*r.pick(&[3u32, 4, 7, 12, 30])));
         }
     };
+    // optionally macro 1 already has an earlier, complete recording: the new one replaces it, also
+    // when the new one ends up empty (stopped at once, or truncated by more than it holds)
+    if pop == "identity" && r.chance(250) {
+        tap(&mut ops, code("r"), &mut r);
+        let n0 = r.range(2, 4);
+        type_some(&mut ops, &mut down, &mut r, n0);
+        for k in down.drain(..) {
+            ops.push(Op::Release(k));
+            ops.push(Op::Gap(4));
+        }
+        tap(&mut ops, code("s"), &mut r);
+        ops.push(Op::Gap(30));
+    }
     // optionally record macro 2 first (for nested play)
     let nested = pop == "identity" && r.chance(300);
     if nested {
